@@ -429,15 +429,28 @@ class Analysis:
             if len(cands) == 1 and cands[0]["returns"]:
                 g = cands[0]
                 ps = [self.prov(g, r, depth + 1) for r in g["returns"] if r[0] != "null"]
-                kinds = {p["kind"] for p in ps}
-                if kinds == {"insPath"}:
-                    return {"kind": "insPath"}
-                if len(ps) == 1:
-                    return ps[0]
+                if ps:
+                    return self.merge(ps)
             return {"kind": "other", "why": "result of %s()" % name}
         if k == "var":
             return self.prov_var(f, t[1], depth)
+        if k == "cond":
+            return self.merge([self.prov(f, t[1], depth + 1), self.prov(f, t[2], depth + 1)])
         return {"kind": "other", "why": "expression " + json.dumps(t)[:60]}
+
+    @staticmethod
+    def merge(ps):
+        """several possible values of one path expression: equal classes merge; the literal "." (current
+        directory) is a legitimate stand-in for an empty configured directory"""
+        real = [p for p in ps if not (p["kind"] == "literal" and p.get("s") == ".")]
+        if not real:
+            return ps[0]
+        kinds = {p["kind"] for p in real}
+        if len(kinds) == 1 and real[0]["kind"] in ("insPath", "modDir", "apiParam", "wrapperParam", "tempName"):
+            return real[0]
+        if len(real) == 1 and len(ps) == 1:
+            return real[0]
+        return {"kind": "other", "why": "one of " + ",".join(sorted(p["kind"] for p in ps))}
 
     def prov_var(self, f, v, depth):
         if v not in f["locals"]:
@@ -471,10 +484,9 @@ class Analysis:
         # plain pointer local assigned from something classifiable (ins_path = libxmp_get_instrument_path(m))
         if assigns and not calls and not elems:
             ps = [self.prov(f, e[1], depth + 1) for e in assigns if e[1][0] != "null"]
-            kinds = {p["kind"] for p in ps}
-            if len(kinds) == 1:
-                return ps[0]
-            return {"kind": "other", "why": "local %s assigned from %s" % (v, sorted(kinds))}
+            if ps:
+                return self.merge(ps)
+            return {"kind": "null"}
 
         # temp-name out-parameter:  make_temp_file(&temp_name) / libxmp_decrunch(h, path, &temp)
         if calls and all(e[1]["callee"] in self.tempout and e[2] in self.tempout[e[1]["callee"]] for e in calls) \
